@@ -42,8 +42,8 @@ ZERO = Poly.const(0)
 
 MIN_CALLS = {"min", "np.min", "numpy.min", "np.amin", "np.minimum", "numpy.minimum",
              "numpy_min", "np.fmin"}
-CAST_CALLS = {"int", "float", "np.ceil", "np.round", "np.rint", "round", "np.floor",
-              "numpy.ceil", "numpy.round", "math.ceil", "math.floor"}
+CAST_CALLS = {"int", "float", "np.ceil", "np.round", "np.rint", "round", "np.floor", "np.around",
+              "numpy.ceil", "numpy.round", "math.ceil", "math.floor", "np.trunc"}
 
 
 def _min_form(forms: List[Poly]) -> Poly:
@@ -582,6 +582,22 @@ def n3(prog: Program, chk: Check) -> None:
         chk.add("N3", u, f"[{label}] tcut", ft == want_t, f"form {ft} (expected {want_t})", r.ast)
         chk.add("N3", u, f"[{label}] dkmax", fk == want_k,
                 f"form {fk} (expected {want_k}, integer casts ignored)", r.ast)
+        if tc:
+            # a cut-off time that is a multiple of dt must give exactly that multiple: the
+            # float quotient k +- ulp has to pass a nearest-integer rounding before any
+            # ceil / floor / int
+            v, vat = case.value(e_k, r.id)
+            wrappers = []
+            while isinstance(v, ast.Call) and dotted(v.func) in CAST_CALLS and v.args:
+                wrappers.append(dotted(v.func))
+                v, vat = case.value(v.args[0], vat)
+            nearest = {"np.round", "round", "np.rint", "numpy.round", "np.around"}
+            ok = bool(wrappers) and wrappers[-1] in nearest
+            chk.add("N3", u, f"[{label}] dkmax rounding {' o '.join(wrappers) or '<none>'}", ok,
+                    "the quotient is rounded to the nearest integer first" if ok else
+                    "the quotient tcut/dt reaches ceil / floor / int unrounded: tcut = 2.1 with "
+                    "dt = 0.3 (quotient 7.000000000000001) gives a memory of 8 steps instead "
+                    "of 7", r.ast)
     # TempoParameters stores the parsed pair
     init = prog.unit("tempo:TempoParameters.__init__")
     ok = False
@@ -660,14 +676,14 @@ def run(prog: Program, chk: Check) -> None:
         "statements over an unbounded parameter space and are not decided by this check. "
         "The double-integral kernels are covered by C12 (L rules), the exponent of the "
         "influence functional by C04 (D4), the TEMPO / PT-TEMPO wiring by C02.")
-    n1(prog, chk)
+    chk.call(n1, prog, chk)
     chk.rule("N2", "memory window: TEMPO stores influences 0..dkmax (only 0 for full memory), "
              "furthest first; at step n it adds separation n (full memory), takes the last n "
              "stored ones (n <= dkmax) or replaces the furthest by the one for dkmax - n "
              "(n > dkmax), joined on the far side; PT-TEMPO maps dkmax=None to num_steps, uses "
              "min(num_steps, dkmax+1) influences, adds the one for -(new step) in the grow phase "
              "and is in the end phase iff new step > num_steps - num_infl + 1", floor=16)
-    n2_tempo(prog, chk)
-    n2_pt(prog, chk)
-    n3(prog, chk)
-    n4(prog, chk)
+    chk.call(n2_tempo, prog, chk)
+    chk.call(n2_pt, prog, chk)
+    chk.call(n3, prog, chk)
+    chk.call(n4, prog, chk)
